@@ -20,6 +20,10 @@ func NewHTTPIndexHandler(s IndexStore, writable bool, auth string) http.Handler 
 }
 
 func (h HTTPIndexHandler) ServeHTTP(w http.ResponseWriter, r *http.Request) {
+	if h.authorization != "" && r.Header.Get("Authorization") != h.authorization {
+		http.Error(w, "Unauthorized", http.StatusUnauthorized)
+		return
+	}
 	indexName := path.Base(r.URL.Path)
 
 	switch r.Method {
